@@ -1,6 +1,7 @@
 package props
 
 import (
+	"fmt"
 	"regexp"
 	"strings"
 
@@ -24,6 +25,12 @@ func init() {
 }
 
 func c07Rules(tier string) []Rule {
+	rules := c07RulesBase(tier)
+	rules = append(rules, nodePodsRules("C07")...)
+	return rules
+}
+
+func c07RulesBase(tier string) []Rule {
 	const (
 		newc = "disr.NewCandidate"
 		gcwt = "disr.GetCandidatesWithTotals"
@@ -89,6 +96,17 @@ func c07Rules(tier string) []Rule {
 		)},
 
 		// a pod covered by two or more PDBs is never evictable (the eviction API refuses it), whatever the PDBs' unhealthy-pod policy
+		// which pods a PDB covers: exactly the selector the API object states (an empty selector covers the namespace)
+		core.Custom{ID: "C07.PROV4", Kind: "PROV", Run: func(w *core.World, id string) []core.Result {
+			rs := core.InstrPresent(w, id, "PROV", "utils/pdb.newPdb", `^store &local<utils/pdb\.pdbItem>\.selector = metav1\.LabelSelectorAsSelector\(\$0\.Spec\.Selector\)#0$`, 1, "the PDB's selector is LabelSelectorAsSelector(spec.selector)")
+			if fn := w.Fn("utils/pdb.newPdb"); fn != nil {
+				if n := len(w.Sites(fn, regexp.MustCompile(`^store &local<utils/pdb\.pdbItem>\.selector = `), true)); n != 1 {
+					rs = append(rs, core.Bad(id, "PROV", "PROV:utils/pdb.newPdb:selector", w.Pos(fn.Pos()), fmt.Sprintf("the selector is assigned %d times (a second assignment replaces what the API object states)", n)))
+				}
+			}
+			rs = append(rs, core.InstrPresent(w, id, "PROV", "@arg:(utils/pdb.Limits).isEvictable|^call lo\\.Filter\\[|1", `^return phi\(false\|iface:\(apim/labels\.Selector\)\.Matches\(\$0\.selector, <apim/labels\.Set>\^\$1\.ObjectMeta\.Labels\)\)$`, 1, "a PDB matches a pod of its namespace whose labels its selector matches")...)
+			return rs
+		}},
 		MPT{ID: "C07.MPT6", Fn: "(utils/pdb.Limits).isEvictable", Ret: core.RetSpec{Index: 1, Want: "true"}, Gates: gates(
 			G(`-^utils/pod\.IsEvictable\(\$1, \$2, \$3\)$`, `-^len\(lo\.Filter\[.*\]\(\$0, .*\)\)>=2$`),
 		)},
